@@ -578,6 +578,8 @@ namespace detail_ {
 
 					case modes::width:
 						if (isdigit(c)) {
+							if (fo.minimum_width > (__INT_MAX__ - (c - '0')) / 10)
+								return false;
 							fo.minimum_width *= 10;
 							fo.minimum_width += spec[i] - '0';
 						} else {
